@@ -457,35 +457,54 @@ func checkBoxBytes(c *Ctx, which string, bs []byte, origin string) boxVerdict {
 		fail("C02", "encode-twice", "encoding twice (Info in between) yields different bytes", hx(e2.out), hx(eW.out))
 	}
 	// ---- C01: lossless modulo the committed list
-	ma, mb := maskDontCare(bs), maskDontCare(eW.out)
-	if !bytes.Equal(ma, mb) {
-		ok := false
-		// normalisation: large-size header on a small box
+	lossless := func(out []byte) (bool, int) {
+		ma, mb := maskDontCare(bs), maskDontCare(out)
+		if bytes.Equal(ma, mb) {
+			return true, -1
+		}
+		// normalisations (each alone, or one after the other): a large-size header on a small box is rewritten
+		// as an 8-byte header; trailing payload bytes the decoder ignores are dropped
+		cands := [][]byte{bs}
 		if len(bs) >= 16 && binary.BigEndian.Uint32(bs) == 1 && typ != "mdat" {
 			short := append([]byte{}, bs[:8]...)
 			binary.BigEndian.PutUint32(short, uint32(len(bs)-8))
 			short = append(short, bs[16:]...)
-			if bytes.Equal(maskDontCare(short), mb) {
-				ok = true
-			}
+			cands = append(cands, short)
 		}
-		// normalisation: trailing payload bytes dropped
-		if !ok && len(eW.out) < len(bs) && len(eW.out) >= 8 {
-			pre := append([]byte{}, bs[:len(eW.out)]...)
-			binary.BigEndian.PutUint32(pre, uint32(len(eW.out)))
-			if bytes.Equal(maskDontCare(pre), mb) {
-				ok = true
+		for i, cand := range cands {
+			if i > 0 && bytes.Equal(maskDontCare(cand), mb) {
+				return true, -1
 			}
-		}
-		if !ok {
-			d := -1
-			for i := 0; i < len(ma) && i < len(mb); i++ {
-				if ma[i] != mb[i] {
-					d = i
-					break
+			if len(out) < len(cand) && len(out) >= 8 {
+				pre := append([]byte{}, cand[:len(out)]...)
+				binary.BigEndian.PutUint32(pre, uint32(len(out)))
+				if bytes.Equal(maskDontCare(pre), mb) {
+					return true, -1
 				}
 			}
-			fail("C01", "not-lossless", fmt.Sprintf("re-encoding differs from the input outside the don't-care list (len %d -> %d, first difference at byte %d)", len(bs), len(eW.out), d), hx(eW.out), hx(bs))
+		}
+		// normalisation trak-adjacent: the children of a moov box may come out in another order as long as the trak
+		// boxes keep their relative order and so do all the other children (nothing lost, nothing altered)
+		if typ == "moov" && len(out) == len(bs) && moovOrderNormalised(ma, mb) {
+			return true, -1
+		}
+		for i := 0; i < len(ma) && i < len(mb); i++ {
+			if ma[i] != mb[i] {
+				return false, i
+			}
+		}
+		return false, -1
+	}
+	if ok, d := lossless(eW.out); !ok {
+		fail("C01", "not-lossless", fmt.Sprintf("re-encoding differs from the input outside the don't-care list (len %d -> %d, first difference at byte %d)", len(bs), len(eW.out), d), hx(eW.out), hx(bs))
+	}
+	// the property quantifies over both decode paths: when both accept, the structure from the slice-reader path
+	// must re-encode losslessly too (the structure from the reader path was checked above)
+	if okR && okS {
+		if e2 := encWriter(rs.box); e2.panic == "" && e2.err == nil {
+			if ok, d := lossless(e2.out); !ok {
+				fail("C01", "not-lossless", fmt.Sprintf("DecodeBoxSR + Encode differs from the input outside the don't-care list (len %d -> %d, first difference at byte %d)", len(bs), len(e2.out), d), hx(e2.out), hx(bs))
+			}
 		}
 	}
 	// fixed point: decode(out) ok, equal structure, encode again identical
@@ -663,4 +682,59 @@ func mutateBox(c *Ctx, bs []byte) [][]byte {
 		out = append(out, m)
 	}
 	return out
+}
+
+// topChildren splits the payload of one box with an 8-byte header into its children (nil if it does not tile)
+func topChildren(box []byte) [][]byte {
+	if len(box) < 8 || binary.BigEndian.Uint32(box) != uint32(len(box)) {
+		return nil
+	}
+	var out [][]byte
+	p := box[8:]
+	for len(p) > 0 {
+		if len(p) < 8 {
+			return nil
+		}
+		sz := int(binary.BigEndian.Uint32(p))
+		if sz < 8 || sz > len(p) {
+			return nil
+		}
+		out = append(out, p[:sz])
+		p = p[sz:]
+	}
+	return out
+}
+
+// moovOrderNormalised: b is a with its children permuted so that trak boxes keep their order and the rest keep theirs
+func moovOrderNormalised(a, b []byte) bool {
+	ca, cb := topChildren(a), topChildren(b)
+	if ca == nil || cb == nil || len(ca) != len(cb) {
+		return false
+	}
+	split := func(l [][]byte) (traks, rest [][]byte) {
+		for _, c := range l {
+			if string(c[4:8]) == "trak" {
+				traks = append(traks, c)
+			} else {
+				rest = append(rest, c)
+			}
+		}
+		return
+	}
+	ta, ra := split(ca)
+	tb, rb := split(cb)
+	if len(ta) != len(tb) || len(ra) != len(rb) {
+		return false
+	}
+	for i := range ta {
+		if !bytes.Equal(ta[i], tb[i]) {
+			return false
+		}
+	}
+	for i := range ra {
+		if !bytes.Equal(ra[i], rb[i]) {
+			return false
+		}
+	}
+	return true
 }
